@@ -94,7 +94,7 @@ def check_stack_effect(repo: Repo, rep: Report, sums: List[OpSummary]):
         raise AnalysisError(f"only {len(sums)} opcode classes summarised (61 on the pinned tree)")
 
 
-def check_memo(repo: Repo, rep: Report, sums: List[OpSummary]):
+def check_memo(repo: Repo, rep: Report, sums: List[OpSummary], RULE: str = "C09.memo"):
     for s in sums:
         q = s.oc.cls.qualname + ".run"
         for p in s.normal:
@@ -102,12 +102,12 @@ def check_memo(repo: Repo, rep: Report, sums: List[OpSummary]):
             tag = f"[{'; '.join(st.conds) or 'unconditional'}]"
             if s.name in PUTS or s.name == "MEMOIZE":
                 if len(st.memo_writes) != 1 or st.memo_other:
-                    rep.bad("C09.memo", q, f"writes:{s.name}", f"{s.name} performs {len(st.memo_writes)} memo write(s){' plus ' + str(st.memo_other) if st.memo_other else ''} {tag}; the VM performs exactly one", s.run.file, s.run.line)
+                    rep.bad(RULE, q, f"writes:{s.name}", f"{s.name} performs {len(st.memo_writes)} memo write(s){' plus ' + str(st.memo_other) if st.memo_other else ''} {tag}; the VM performs exactly one", s.run.file, s.run.line)
                     continue
                 k, v, line = st.memo_writes[0]
                 top = st.base_items.get("T0")
                 if not (isinstance(v, Item) and v is top and "T0" in st.peeked and v not in st.popped_vals):
-                    rep.bad("C09.memo", q, f"value:{s.name}", f"{s.name} stores {v.short()} in the memo, not the (unpopped) top of stack {tag}", s.run.file, line)
+                    rep.bad(RULE, q, f"value:{s.name}", f"{s.name} stores {v.short()} in the memo, not the (unpopped) top of stack {tag}", s.run.file, line)
                     continue
                 if s.name == "MEMOIZE":
                     good = isinstance(k, Unknown) and k.why == "len(memory)"
@@ -116,20 +116,20 @@ def check_memo(repo: Repo, rep: Report, sums: List[OpSummary]):
                     good = set(k.roots()) == {"arg"} and not any(isinstance(x, Unknown) and x.why in ("binop", "loop-var", "augassign") for x in reach(k, st))
                     want = "the opcode argument"
                 if good:
-                    rep.ok("C09.memo", q, f"{s.name}: memo[{want}] = top of stack", f"{s.run.file}:{line}")
+                    rep.ok(RULE, q, f"{s.name}: memo[{want}] = top of stack", f"{s.run.file}:{line}")
                 else:
-                    rep.bad("C09.memo", q, f"key:{s.name}", f"{s.name} writes memo key `{k.short()}`; the VM uses {want} {tag}", s.run.file, line)
+                    rep.bad(RULE, q, f"key:{s.name}", f"{s.name} writes memo key `{k.short()}`; the VM uses {want} {tag}", s.run.file, line)
             elif s.name in GETS:
                 if len(st.memo_reads) != 1 or st.memo_writes or st.memo_other:
-                    rep.bad("C09.memo", q, f"reads:{s.name}", f"{s.name} performs {len(st.memo_reads)} memo read(s) and {len(st.memo_writes)} write(s) {tag}", s.run.file, s.run.line)
+                    rep.bad(RULE, q, f"reads:{s.name}", f"{s.name} performs {len(st.memo_reads)} memo read(s) and {len(st.memo_writes)} write(s) {tag}", s.run.file, s.run.line)
                     continue
                 k, line = st.memo_reads[0]
                 pushed = st.local_stack
                 arith = any(isinstance(x, Unknown) and x.why in ("binop", "loop-var", "augassign") for x in reach(k, st))
                 if set(k.roots()) == {"arg"} and not arith and len(pushed) == 1 and isinstance(pushed[0], Unknown) and pushed[0].why == "memo":
-                    rep.ok("C09.memo", q, f"{s.name}: push memo[argument]", f"{s.run.file}:{line}")
+                    rep.ok(RULE, q, f"{s.name}: push memo[argument]", f"{s.run.file}:{line}")
                 else:
-                    rep.bad("C09.memo", q, f"key:{s.name}", f"{s.name} reads memo key `{k.short()}` / pushes {[v.short() for v in pushed]}; the VM pushes memo[argument] {tag}", s.run.file, line)
+                    rep.bad(RULE, q, f"key:{s.name}", f"{s.name} reads memo key `{k.short()}` / pushes {[v.short() for v in pushed]}; the VM pushes memo[argument] {tag}", s.run.file, line)
             else:
                 if st.memo_writes or st.memo_reads or st.memo_other:
                     rep.bad(
@@ -141,18 +141,18 @@ def check_memo(repo: Repo, rep: Report, sums: List[OpSummary]):
                         s.run.line,
                     )
     untouched = sum(1 for s in sums if s.name not in PUTS | GETS | {"MEMOIZE"})
-    rep.ok("C09.memo", "fickling.fickle.*", f"{untouched} other opcode handlers checked to leave the memo alone", "")
+    rep.ok(RULE, "fickling.fickle.*", f"{untouched} other opcode handlers checked to leave the memo alone", "")
     # the memo itself is a plain dict created per interpreter
     init = repo.cls("fickling.fickle.Interpreter").method("__init__")
     if init is None:
         raise AnalysisError("Interpreter.__init__ not found")
     mem = [n for n in body_walk(init.node) if isinstance(n, (ast.Assign, ast.AnnAssign)) and dotted(n.targets[0] if isinstance(n, ast.Assign) else n.target) == "self.memory"]
     if len(mem) == 1 and isinstance(mem[0].value, ast.Dict) and not mem[0].value.keys:
-        rep.ok("C09.memo", init.qualname, "self.memory = {} (fresh, empty, dict-keyed like the VM's memo)", f"{init.file}:{mem[0].lineno}")
+        rep.ok(RULE, init.qualname, "self.memory = {} (fresh, empty, dict-keyed like the VM's memo)", f"{init.file}:{mem[0].lineno}")
     elif len(mem) == 1 and isinstance(mem[0].value, ast.Call) and dotted(mem[0].value.func) == "dict" and not mem[0].value.args:
-        rep.ok("C09.memo", init.qualname, "self.memory = dict()", f"{init.file}:{mem[0].lineno}")
+        rep.ok(RULE, init.qualname, "self.memory = dict()", f"{init.file}:{mem[0].lineno}")
     else:
-        rep.bad("C09.memo", init.qualname, "memo-init", f"Interpreter.memory is not initialised to a fresh empty dict ({[src(m) for m in mem]})", init.file, init.line)
+        rep.bad(RULE, init.qualname, "memo-init", f"Interpreter.memory is not initialised to a fresh empty dict ({[src(m) for m in mem]})", init.file, init.line)
 
 
 def check_stack_class(repo: Repo, rep: Report):
